@@ -387,6 +387,8 @@ def install(I, F, stream, mode):
     add(r"alloc::vec::Vec@Default::default$", lambda I, a, f: Agg([], "vec"))
     add(r"core::option::Option@Default::default$", lambda I, a, f: Agg([], "adt", "core::option::Option", "None"))
     add(r"alloc::collections::btree::map::BTreeMap::len$", lambda I, a, f: len(deref(a[0]).items))
+    add(r"btree::map::BTreeMap::is_empty$|alloc::vec::Vec::is_empty$|btree::set::BTreeSet::is_empty$", lambda I, a, f: (len(deref(a[0]).items) == 0) if isinstance(deref(a[0]), Agg) else Term("is_empty", repr(a[0])))
+    add(r"core::slice::\[T\]::is_empty$", lambda I, a, f: slice_of(I, a[0]).len == 0)
 
     def bt_insert(I, a, f):
         deref(a[0]).items.append(Agg([a[1], a[2]], "tuple"))
